@@ -51,6 +51,10 @@ var profiles = map[string]Profile{
 		AllowLookup: []bool{true}, Expiry: []int64{0}, CacheKinds: []string{"none", "empty"},
 		Deadlines: []int64{0}, LookupDl: []int64{0, 10000, 10000, 60000}, AdvanceMs: []int64{5000, 10000, 300000}, ParkPct: 35,
 		Weights: map[string]int{"respond": 16, "fail": 6, "svc": 6, "advance": 22, "lookup": 30, "cancel": 8, "unpark": 12, "read": 6, "handle": 4, "refresh": 6}, Steps: 50},
+	"cache": {Name: "cache", Names: allNames, Callers: allCallers, Declared: [][]string{{"a"}, {"a", "b"}}, Auto: true,
+		AllowLookup: []bool{true}, Expiry: []int64{0, 30000}, CacheKinds: []string{"empty", "partial", "undeclared", "garbage", "readerr", "complete"},
+		Deadlines: []int64{0}, LookupDl: []int64{0}, AdvanceMs: []int64{1000, 31000}, DeadRestartPct: 60,
+		Weights: map[string]int{"respond": 34, "fail": 5, "svc": 14, "advance": 8, "refresh": 10, "tick": 6, "read": 6, "handle": 6, "lookup": 8, "close": 3, "restart": 10, "cachefault": 3}, Steps: 60},
 	"expiry": {Name: "expiry", Names: allNames, Callers: allCallers, Declared: [][]string{{"a"}},
 		AllowLookup: []bool{true}, Expiry: []int64{0, 30000, 30000}, CacheKinds: []string{"undeclared", "zerostamp", "empty"},
 		Deadlines: []int64{0}, LookupDl: []int64{0}, AdvanceMs: []int64{10000, 30000, 31000, 1000},
@@ -69,6 +73,10 @@ func TestStoreRandom(t *testing.T) {
 	n := vh.EnvInt("VERIF_TRACES", 50)
 	w := vh.NewNDJSON(t, filepath.Join(dir, "trace.ndjson"))
 	events := 0
+	if os.Getenv("VERIF_FILECLIENT") != "" {
+		FileClientDir = dir
+		defer func() { res.Set("fileclient_checks", int(FileClientChecks.Load())) }()
+	}
 	var curEnv atomic.Pointer[Env]
 	stop := startWatchdog(t, res, func() []Event {
 		if e := curEnv.Load(); e != nil {
